@@ -19,7 +19,7 @@
    [xcomplete_never_refused]: the completion inside a committed step cannot fail.
    [run2_is_xrun]: conversely every history of step2 is one of xstep (without commits).  *)
 From Coq Require Import ZArith List Bool Arith.
-From MTV Require Import Client.Model Client.Live Client.LiveInv Client.Alive.
+From MTV Require Import Client.Model Client.StepLemmas Client.Live Client.LiveInv Client.Salt Client.Alive.
 Import ListNotations.
 Open Scope Z_scope.
 
@@ -272,6 +272,80 @@ Proof.
       destruct l as [[t h|[t|] clk|f|]| |x]; try discriminate RX.
       rewrite (waiting_send_refused s clk K MW) in S1. discriminate. }
     rewrite X. exact (IH s1 s' H).
+Qed.
+
+(* ---- a commit never deadlocks: the owner's next step resolves it ------------------------------------ *)
+
+Definition XWait (x : xstate) : Prop := committed x = true -> must_wait (base (cur x)) = true.
+
+Lemma XWait_plain : forall s, XWait (plain s).
+Proof. intros s H. discriminate H. Qed.
+
+Lemma XWait_step : forall x l x', xstep x l = Some x' -> XWait x'.
+Proof.
+  intros x l x' H. unfold xstep in H. destruct (committed x).
+  - destruct (is_rx_step l); [discriminate|].
+    destruct (step2 (cur x) l) as [s1|]; [|discriminate].
+    destruct (must_wait (base s1)) eqn:MW.
+    + injection H as <-. intros _. exact MW.
+    + destruct (step2 s1 rx_label); [|discriminate]. injection H as <-. apply XWait_plain.
+  - destruct (is_rx_step l && keyed (cur x) && must_wait (base (cur x))) eqn:B.
+    + injection H as <-. intros _. apply andb_prop in B as [_ MW]. exact MW.
+    + destruct (step2 (cur x) l); [|discriminate]. injection H as <-. apply XWait_plain.
+Qed.
+
+Lemma XWait_run : forall ls x x', XWait x -> xrun x ls = Some x' -> XWait x'.
+Proof.
+  induction ls as [|l r IH]; intros x x' I H.
+  - injection H as <-. exact I.
+  - rewrite xrun_cons in H. destruct (xstep x l) as [x1|] eqn:X1; [|discriminate].
+    exact (IH x1 x' (XWait_step x l x1 X1) H).
+Qed.
+
+(* In every reachable committed state the channel belongs to a caller that has written its request and is on its
+   way out of sendPacket (CWritten): its next step - always enabled - makes it listen, the send completes in the
+   same breath, and the system is back in an uncommitted state. *)
+Theorem xcommit_resolves : forall c ls x, xrun (plain (init2 c)) ls = Some x -> committed x = true ->
+  exists t x', xstep x (L1 (LStep (ACaller t) 0)) = Some x' /\ committed x' = false.
+Proof.
+  intros c ls x H C.
+  pose proof (XInv_run ls _ _ (XInv_plain _) H C) as [K SD].
+  pose proof (XWait_run ls _ _ (XWait_plain _) H C) as MW.
+  pose proof (Inv11_run c _ _ (xrefines ls _ _ H)) as I11.
+  set (s := cur x) in *. set (b := base s) in *.
+  (* the channel and its owner *)
+  assert (OW : exists i t k, send_chan b = Some (t, k) /\ at_send b i t k).
+  { unfold must_wait in MW. unfold send_chan in *. unfold sending in SD.
+    destruct (rx b) as [| |req [t k] v ks| | | | |keys ks| |] eqn:R; try discriminate.
+    - exists req, t, k. split; [reflexivity|]. left. eauto.
+    - destruct keys as [|i [|j r]]; try discriminate.
+      destruct (lookup i (table b)) as [[t k]|] eqn:L; [|discriminate].
+      exists i, t, k. split; [reflexivity|]. right. eauto. }
+  destruct OW as (i & t & k & SC & AS).
+  destruct (owner_of_send s i t k I11 AS) as [CK PC]. fold b in CK, PC.
+  assert (PW : c_pc (getc t b) = CWritten i).
+  { destruct PC as [PC|PC]; [exact PC|]. exfalso.
+    unfold must_wait in MW. rewrite SC in MW. unfold listening in MW. rewrite PC, CK, Nat.eqb_refl in MW. discriminate. }
+  exists t.
+  (* the owner's step *)
+  set (b1 := set_pc t (CRecv i) (set_lock None b)).
+  assert (S1 : step2i s (L1 (LStep (ACaller t) 0)) = Some (wb b1 s)).
+  { unfold step2i. rewrite K. cbn [negb]. unfold lift. cbn [step]. unfold step_caller. fold b. rewrite PW. reflexivity. }
+  assert (S2 : step2 s (L1 (LStep (ACaller t) 0)) = Some (flush (wb b1 s))) by (unfold step2; rewrite S1; reflexivity).
+  set (s1 := flush (wb b1 s)) in *.
+  assert (B1 : base s1 = b1) by (unfold s1; rewrite flush_base; reflexivity).
+  assert (RX1 : rx b1 = rx b) by reflexivity.
+  assert (TB1 : table b1 = table b) by reflexivity.
+  assert (G1 : getc t b1 = {| c_pc := CRecv i; c_hint := c_hint (getc t b); c_k := c_k (getc t b) |}).
+  { unfold b1. rewrite getc_set_pc, Nat.eqb_refl. reflexivity. }
+  assert (MW1 : must_wait (base s1) = false).
+  { rewrite B1. unfold must_wait, send_chan. rewrite RX1, TB1. fold (send_chan b). rewrite SC.
+    unfold listening. rewrite G1. cbn [c_pc c_k]. rewrite CK, Nat.eqb_refl. reflexivity. }
+  assert (SD1 : sending (base s1) = true) by (rewrite B1; unfold sending; rewrite RX1; exact SD).
+  assert (K1 : keyed s1 = true) by (exact (keyed_step _ _ _ S2 K)).
+  destruct (ready_send_steps s1 K1 SD1 MW1) as [s2 S3].
+  exists (plain s2). split; [|reflexivity].
+  unfold xstep. rewrite C. cbn [is_rx_step]. fold s. rewrite S2. fold s1. rewrite MW1, S3. reflexivity.
 Qed.
 
 (* ---- non-vacuity: a result handed over before its caller listens -----------------------------------
